@@ -87,7 +87,28 @@ pub fn run(seed: u64, thorough: bool) {
             bad.push(nz.clone());
             nz[last] = 0;
             nz[9] = 0x80;
-            bad.push(nz);
+            bad.push(nz.clone());
+            nz[9] = 0;
+            // non-zero trailers whose bytes cancel out under xor / sum / and, at both ends and in the middle
+            for (a, b, va, vb) in [(9usize, 10usize, 0x5au8, 0x5au8), (9, last, 0x01, 0x01), (9 + n / 2, last, 0xff, 0xff), (9, 10, 0x01, 0xff),
+                                   (last - 1, last, 0x80, 0x80)] {
+                let mut t = nz.clone();
+                t[a] = va;
+                t[b] = vb;
+                bad.push(t);
+            }
+            let mut all_ff = nz.clone();
+            for x in all_ff[9..].iter_mut() {
+                *x = 0xff;
+            }
+            bad.push(all_ff);
+            for pos in 9..nz.len() {
+                if (pos - 9) % 5 == 2 {
+                    let mut t = nz.clone();
+                    t[pos] = 0x10;
+                    bad.push(t);
+                }
+            }
             for m in bad {
                 let mut msg = m.clone();
                 let (out, calls) = sign_mut(shape.hash, &blob, &mut msg, true);
